@@ -2,7 +2,11 @@
 
 package resolver
 
-import "context"
+import (
+	"context"
+
+	"github.com/miekg/dns"
+)
 
 // Accessors for the C12 (bounded work per request) check. No behaviour change.
 
@@ -28,3 +32,11 @@ func VerifC12QnameMinLevel(r *Resolver) int { return r.qnameMinLevel }
 // VerifC12DNSSECWork exposes the ledger-backed DNSSEC work budget the resolver
 // hands to the dnssec package (Resolver.dnssecWork).
 func VerifC12DNSSECWork(r *Resolver, ctx context.Context) dnssecWorkBudget { return r.dnssecWork(ctx) }
+
+// VerifC12PickFallback exposes pickFallbackResponse (what lookup returns when no authority gave a clean answer).
+func VerifC12PickFallback(responseErrors, configErrors []*dns.Msg, fatalErrors []error) (*dns.Msg, error) {
+	return pickFallbackResponse(responseErrors, configErrors, fatalErrors)
+}
+
+// VerifC12IsFatal reports whether err is the "every authority failed" wrapper.
+func VerifC12IsFatal(err error) bool { return isFatalError(err) }
